@@ -394,6 +394,9 @@ func (e *Env) unify(a, b TV) (TV, TV) {
 
 func (e *Env) toIface(v TV) TV {
 	t := v.Ty
+	if v.Sort == sIface {
+		return v // already an interface value: conversion to `any` keeps the dynamic value
+	}
 	if b, ok := t.Underlying().(*types.Basic); ok && b.Info()&types.IsUntyped != 0 {
 		t = types.Default(t)
 	}
@@ -765,6 +768,14 @@ func (e *Env) call(n *ECall) TV {
 			e.fail("has() on non-map %s", m.Ty)
 		}
 		return TV{S: vc.mapHas(e.st, mt, m.S, k.S), Sort: sBool, Ty: boolT}
+	case "dom":
+		// dom(m): the key set of a map, as a set value (compare with seenset(), store(...))
+		m := arg(0)
+		mt, ok := m.Ty.Underlying().(*types.Map)
+		if !ok {
+			e.fail("dom() of non-map")
+		}
+		return TV{S: vc.mapDom(e.st, mt, m.S), Sort: arraySort(vc.enc.sortOf(mt.Key()), sBool)}
 	case "seen":
 		if e.seenComp == "" {
 			e.fail("seen() outside a map-range loop")
